@@ -16,6 +16,8 @@ Ops:
                crosstab_total, res, stride, order_by:[{f,d}], limit, offset}
       row   = {key:[[dim,value]…], ts, vals:[[name,rat]…], where:bool, conds:[ids], gb:[value|null…]
                (one per `by`), ctab:"…"}
+  shipped  {slots, shipped, leader} → {accepted, positional}   (`partitionLists`: the contract of
+           Opts.SubQueryResults — one list per IN-subquery of the statement, positionally)
   goexpr results (WHERE, IF conditions, GROUP BY and CROSSTAB expressions) travel with the
   rows; the functions of the model's `Query` are look-ups by key.
 -/
@@ -133,7 +135,10 @@ def planEngine (j : Json) : R Json := do
       let pk ← plStrList j "partition_by"
       let levels ← (← arr j "chain").toList.mapM plParseLevel
       let t ← plMkTree levels
-      pure (Json.mkObj [("allowed", Json.bool (pushdownAllowed pk t)),
+      let tgb := match j.getObjVal? "table_group_by" with
+        | .ok v => ((v.getArr?.toOption).getD #[]).toList.map (fun x => (x.getStr?.toOption).getD "")
+        | _ => []
+      pure (Json.mkObj [("allowed", Json.bool (pushdownAllowedT tgb pk t)),
                         ("allowed_pre_fix02", Json.bool (pushdownAllowedPre pk t))])
   | "rewrite" =>
       let sj ← obj j "syn"
@@ -167,6 +172,21 @@ def planEngine (j : Json) : R Json := do
       let ps := parts.map (fun p => p.map (·.1))
       pure (Json.mkObj [("rows", rowsJson (clusterRun dummyExt pk ps (.table q) s)),
                         ("pushdown", Json.bool (pushdownAllowed pk (.table q)))])
+  | "shipped" =>
+      -- {slots: n, shipped: [[value…]…] | null, leader: [[value…]…]}  (values as strings)
+      let n := plNatD j "slots" 0
+      let lists := fun (k : String) => match j.getObjVal? k with
+        | .ok (Json.arr a) => some (a.toList.map (fun l => match l with
+            | Json.arr vs => vs.toList.map (fun v => some (DimVal.str ((v.getStr?.toOption).getD "")))
+            | _ => []))
+        | _ => none
+      let leader : List InVals := (lists "leader").getD []
+      let own : List InVals := List.replicate n []
+      match lists "shipped" with
+      | none => pure (Json.mkObj [("accepted", Json.bool (n == 0)), ("positional", Json.bool (n == 0))])
+      | some shipped =>
+        pure (Json.mkObj [("accepted", Json.bool (decide (partitionLists shipped own = shipped) && shipped.length == n)),
+                          ("positional", Json.bool (decide (shipped = leader)))])
   | _ => throw s!"plan: unknown op {op}"
 
 end Zeno.Drv
